@@ -101,6 +101,38 @@ func NewEngineTarget(obs *Obs, text string) (*Target, error) {
 	return &Target{Obs: obs, Eng: engine.NewGengine(), RB: rb, DC: dc}, nil
 }
 
+// NewEngineTargetSplit installs the rule set in several steps: a full build of the first group
+// of rules, then incremental builds of the remaining groups (so that the binary-search
+// insertion and the copy-on-write merge are on the path of every E2 oracle).
+func NewEngineTargetSplit(obs *Obs, groups []string) (*Target, error) {
+	t, err := NewEngineTarget(obs, groups[0])
+	if err != nil {
+		return nil, err
+	}
+	for _, g := range groups[1:] {
+		g := g
+		if err := CompileLocked(func() error { return t.RB.BuildRuleWithIncremental(g) }); err != nil {
+			return nil, err
+		}
+	}
+	return t, nil
+}
+
+// NewPoolTargetSplit is the pool counterpart: pool construction, then incremental updates.
+func NewPoolTargetSplit(obs *Obs, groups []string, min, max int64, em int) (*Target, error) {
+	t, err := NewPoolTarget(obs, groups[0], min, max, em)
+	if err != nil {
+		return nil, err
+	}
+	for _, g := range groups[1:] {
+		g := g
+		if err := CompileLocked(func() error { return t.Pool.UpdatePooledRulesIncremental(g) }); err != nil {
+			return nil, err
+		}
+	}
+	return t, nil
+}
+
 // NewPoolTarget creates a pool of the given size.
 func NewPoolTarget(obs *Obs, text string, min, max int64, em int) (*Target, error) {
 	apis := obs.Apis()
